@@ -62,6 +62,9 @@ def check(run):
     mask(R)
     private(R)
     rsv1gate(R)
+    from . import C06
+    with R.as_rule('C03.rsv1gate'):
+        C06.wiring(R)        # compressed frames round-trip only if the deflate contexts are configured as negotiated
     closep(R)
 
 
@@ -584,6 +587,22 @@ def mask(R):
         and U(v.elt.value) == '_XOR_TABLE' and U(v.elt.slice) == U(v.generators[0].target) \
         and it_txt in ('bytearray(%s)' % kparam, kparam) and len(names) == 4
     R.ob('C03.mask', 'tables selected by key bytes in order', okt, 'tables: %s' % U(v), func=f2, node=unpack[0])
+    # masking is in place on the caller's bytearray: the parameter is never re-bound (data = data[k:] makes a copy - what
+    # is masked afterwards is the copy, the caller's tail stays unmasked), and every lane covers the whole buffer
+    rebinds = [s_ for s_ in own_nodes(f2.node) if isinstance(s_, (ast.Assign, ast.AugAssign)) and any(
+        isinstance(t, ast.Name) and t.id == dparam for t in (s_.targets if isinstance(s_, ast.Assign) else [s_.target]))]
+    R.ob('C03.mask', 'mask_payload works on the caller\'s buffer', not rebinds,
+         'mask_payload re-binds its `%s` parameter (%s): a slice of a bytearray is a copy, so the bytes masked after that '
+         'are not the caller\'s - part of the frame goes out unmasked' % (dparam, U(rebinds[0]) if rebinds else ''),
+         func=f2, node=(rebinds[0] if rebinds else None), construct='mask_payload re-binds its buffer')
+    stores = [s_ for s_ in own_nodes(f2.node) if isinstance(s_, ast.Assign) and isinstance(s_.targets[0], ast.Subscript)
+              and U(s_.targets[0].value) == dparam]
+    partial = [s_ for s_ in stores if not (isinstance(s_.targets[0].slice, ast.Slice) and s_.targets[0].slice.upper is None
+                                           and U(s_.targets[0].slice.step) == '4')]
+    R.ob('C03.mask', 'every store masks a whole lane', not partial,
+         'mask_payload writes `%s`: only part of the buffer is masked by that statement (a fast path next to the four '
+         'lanes must itself be proved to cover exactly the rest)' % (U(partial[0].targets[0]) if partial else ''), func=f2,
+         node=(partial[0] if partial else None), construct='partial mask store')
     lanes = {}
 
     def lane_ok(tgt, val, i, table_name):
